@@ -148,6 +148,7 @@ def main(p):
                 out_.append(fd)
         return out_
 
+    conf_inputs = []   # (cell, label, request bytes, seam record) for the loopback conformance pass
     for cell in a['cells']:
         Dreq = p.cls(cell['req'])
         Gen = lib.type_of(cell['req'], tp)
@@ -199,6 +200,8 @@ def main(p):
             e = seam.log[0]
             out['traffic'] += 1
             n_traffic += 1
+            if label in ('path#0+all', 'path#1', 'binding1+some') and not a.get('no_conformance'):
+                conf_inputs.append((cell, label, dyn.SerializeToString(), dict(verb=e['verb'], url=e['url'], body=e['body'])))
             try:
                 got, bi, qkeys = http.reconstruct(Dreq, bindings, e['verb'], e['url'], e['body'], numeric)
             except http.Mismatch as mm:
@@ -242,7 +245,71 @@ def main(p):
                                            body=(e['body'] or b'')[:200].decode('utf8', 'replace'), binding=bindings[bi]))
         if cell['kind'] in ('product', 'kit', 'bindings', 'stream') and n_traffic == 0:
             fail(cell, '-', 'no-traffic', 'no valuation of this cell produced an HTTP request')
+    conformance(lib, seam, conf_inputs, tp, reply_json, stream_json, out)
     return out
+
+
+def conformance(lib, seam, inputs, tp, reply_json, stream_json, out):
+    """Seam conformance (DESIGN 4.2): the same calls through a real HTTP server on loopback TCP; the request line and
+    body that server reads off the socket must equal what the HTTP seam recorded.  A difference is a harness
+    (seam-fidelity) problem, never a property violation."""
+    import http.server
+    import os
+    import threading
+    import urllib.parse
+    out['conformance'] = dict(calls=0, mismatches=[], skipped=None)
+    seen = []
+
+    class H(http.server.BaseHTTPRequestHandler):
+        protocol_version = 'HTTP/1.1'
+
+        def _do(self):
+            n = int(self.headers.get('Content-Length') or 0)
+            body = self.rfile.read(n) if n else None
+            seen.append(dict(verb=self.command, target=self.path, body=body))
+            payload = stream_json if self.server.kind == 'stream' else reply_json
+            self.send_response(200)
+            self.send_header('Content-Type', 'application/json')
+            self.send_header('Content-Length', str(len(payload)))
+            self.end_headers()
+            self.wfile.write(payload)
+        do_GET = do_POST = do_PUT = do_PATCH = do_DELETE = _do
+
+        def log_message(self, *args):
+            pass
+
+    try:
+        srv = http.server.ThreadingHTTPServer(('127.0.0.1', 0), H)
+    except OSError as e:
+        out['conformance']['skipped'] = f'no loopback socket: {e}'
+        return
+    srv.kind = 'unary'
+    th = threading.Thread(target=srv.serve_forever, daemon=True)
+    th.start()
+    seam.uninstall()
+    os.environ['NO_PROXY'] = os.environ['no_proxy'] = '*'
+    try:
+        C = lib.client_cls('Rest')
+        real = C(transport=C.get_transport_class('rest')(credentials=lib._creds(), host=f'127.0.0.1:{srv.server_address[1]}', url_scheme='http'))
+        for cell, label, raw, rec in inputs:
+            Gen = lib.type_of(cell['req'], tp)
+            srv.kind = cell['kind']
+            del seen[:]
+            try:
+                ret = getattr(real, cell['py'])(request=Gen.deserialize(raw))
+                if cell['kind'] == 'stream':
+                    list(ret)
+            except BaseException as e:
+                out['conformance']['mismatches'].append(dict(cell=cell['id'], val=label, what=f'call failed: {type(e).__name__}: {str(e)[:200]}'))
+                continue
+            out['conformance']['calls'] += 1
+            u = urllib.parse.urlsplit(rec['url'])
+            want = dict(verb=rec['verb'], target=u.path + ('?' + u.query if u.query else ''), body=rec['body'] or None)
+            if len(seen) != 1 or seen[0] != want:
+                out['conformance']['mismatches'].append(dict(cell=cell['id'], val=label, what=f'server read {seen[:2]!r}, seam recorded {want!r}'[:600]))
+    finally:
+        srv.shutdown()
+        srv.server_close()
 
 
 def _field_repr(msg, fd):
